@@ -94,4 +94,18 @@ CHECKS = {
             P("TestC01_KnownFindings"),
         ],
     ),
+    "C03": dict(
+        level="exploration",
+        rule=("rapid state machine with reorgs: 1-3 declarations (log/tx) whose data plan carries parent hashes, on one shared source client; batch_size 1..8 x concurrency 1..4; start in {1, mid, head}; 4..18 actions drawn from grow / step / reorg between steps "
+              "(fork depth 1..6 above the oldest retained position, replacement shorter, equal or longer incl. empty) / reorg scheduled INSIDE the next step (on the k-th request, or on the n-th request of kind latest|hash|headers|blocks|logs|receipts) / restart; "
+              "then the source settles (chain grown past every recorded height) and every pair is stepped until quiet for #integrations+3 rounds. Oracle at quiescence: position == canonical head with the canonical hash, every retained position canonical, table == projection of the canonical chain; "
+              "during the run: no row at or below the largest still-canonical recorded position under a fork is deleted or rewritten. non-trivial = an orphaned block had produced rows AND (reorg deeper than one block OR reorg landed mid-step)."),
+        assumptions=["fork points are above the oldest retained position of every pair on the source (a task that starts at the head has no history before its first commit)",
+                     "with concurrency > 1 the moment a mid-step reorg lands relative to other partitions is schedule-dependent; the verdict (quiescence equality) is interleaving-independent, reproduction may need the logged history",
+                     "fakepg/sim/model as for C01"],
+        units=[
+            R("TestC03_Reorg", 2400, 60000, shards=16),
+            P("TestC03_KnownFindings"),
+        ],
+    ),
 }
